@@ -299,6 +299,16 @@ class Engine:
     def ev_closure(self, n, st):
         return [("n", st, ("closure", n))]
 
+    def rtext(self, n, st):
+        """rendering of n with locals that merely name a value of the AST replaced by that value's path"""
+        env = {}
+        for x in H.walk(n):
+            lid = H.local_id(x) if isinstance(x, dict) and x.get("k") == "path" else None
+            v = st.env.get(lid) if lid is not None else None
+            if isinstance(v, tuple) and len(v) > 1 and v[0] == "ast" and isinstance(v[1], str) and v[1] != x["res"].get("name"):
+                env[lid] = {"k": "path", "res": {"r": "local", "name": v[1], "id": ("ast", v[1])}}
+        return H.render(H._subst(n, env) if env else n)
+
     def call_closure(self, clo, args, st):
         """evaluate a closure value on abstract arguments: → [(ctl, st, val)]"""
         n = clo[1]
@@ -708,7 +718,9 @@ class Engine:
             t = self.truth(v)
             ctxt = None
             if t is None and H.strip(n["c"]).get("k") != "let":
-                ctxt = "cond:" + H.render(n["c"])[:80]
+                # a decision on a value of the AST is named after that value, however the program got hold of it
+                # (`if b.value`, or `let value = b.value; .. if value`)
+                ctxt = "cond:" + (v[1] if (isinstance(v, tuple) and len(v) > 1 and v[0] == "ast" and isinstance(v[1], str)) else H.render(n["c"])[:80])
                 if ctxt in s.facts:
                     t = s.facts[ctxt]
             if t is None or t:
@@ -1036,7 +1048,7 @@ class Engine:
                 elif nm == "Some":
                     out.append(("n", s, ("optval", True, a[0] if a else UNK)))
                 else:
-                    out.append(("n", s, ("ctor", H.render(n))))
+                    out.append(("n", s, ("ctor", self.rtext(n, s))))
             return out
         if cal.startswith(C):
             return self.compiler_call(H.last(cal), n, None, n.get("args", []), st)
